@@ -8,6 +8,7 @@ import (
 	"os/exec"
 	"path/filepath"
 	"regexp"
+	"runtime"
 	"sort"
 	"strconv"
 	"strings"
@@ -58,7 +59,110 @@ func selfExe() string {
 	return p
 }
 
+var procSem = make(chan struct{}, procSlots())
+
+func procSlots() int {
+	if p, err := strconv.Atoi(os.Getenv("VERIF_PAR")); err == nil && p > 0 {
+		return p
+	}
+	n := runtime.NumCPU()
+	if n < 2 {
+		n = 2
+	}
+	return n
+}
+
+// runSub runs one harness, as a single process or as 2^ShardBits processes over disjoint parts of its path tree.
 func runSub(h harnessSpec, tier string, seed int64, solver string) HarnessResult {
+	bits := h.ShardBits
+	if tier == "thorough" && h.ShardBitsThorough > 0 {
+		bits = h.ShardBitsThorough
+	}
+	if bits == 0 {
+		return runProc(h, tier, seed, solver, 0, 0)
+	}
+	n := 1 << bits
+	parts := make([]HarnessResult, n)
+	var wg sync.WaitGroup
+	for i := 0; i < n; i++ {
+		wg.Add(1)
+		go func(i int) { defer wg.Done(); parts[i] = runProc(h, tier, seed+int64(i), solver, bits, i) }(i)
+	}
+	wg.Wait()
+	return mergeResults(parts)
+}
+
+func mergeResults(parts []HarnessResult) HarnessResult {
+	m := parts[0]
+	m.Ends, m.Reach, m.Asserts = map[string]int{}, map[string]int{}, map[string]int{}
+	fs, ms, hv, bs := map[string]bool{}, map[string]bool{}, map[string]bool{}, map[string]bool{}
+	m.Paths, m.Completed, m.Queries, m.Unknown, m.SolverS, m.Obligations, m.Discharged, m.UnwindFailures, m.ValidationTried, m.Validated = 0, 0, 0, 0, 0, 0, 0, 0, 0, 0
+	m.Inconclusive, m.Cex, m.ValidationIssues, m.Samples, m.Error = nil, nil, nil, nil, ""
+	seen := map[string]bool{}
+	for _, p := range parts {
+		m.Paths += p.Paths
+		m.Completed += p.Completed
+		m.Queries += p.Queries
+		m.Unknown += p.Unknown
+		m.SolverS += p.SolverS
+		m.Obligations += p.Obligations
+		m.Discharged += p.Discharged
+		m.UnwindFailures += p.UnwindFailures
+		m.ValidationTried += p.ValidationTried
+		m.Validated += p.Validated
+		if p.WallS > m.WallS {
+			m.WallS = p.WallS
+		}
+		for k, v := range p.Ends {
+			m.Ends[k] += v
+		}
+		for k, v := range p.Reach {
+			m.Reach[k] += v
+		}
+		for k, v := range p.Asserts {
+			m.Asserts[k] += v
+		}
+		for _, x := range p.Functions {
+			fs[x] = true
+		}
+		for _, x := range p.Models {
+			ms[x] = true
+		}
+		for _, x := range p.Havoc {
+			hv[x] = true
+		}
+		for _, x := range p.Bounds {
+			bs[x] = true
+		}
+		m.Inconclusive = append(m.Inconclusive, p.Inconclusive...)
+		m.ValidationIssues = append(m.ValidationIssues, p.ValidationIssues...)
+		if len(m.Samples) < 4 {
+			m.Samples = append(m.Samples, p.Samples...)
+		}
+		for _, c := range p.Cex {
+			// keep one counterexample per obligation, preferring a reproduced one
+			if !seen[c.What] {
+				seen[c.What] = true
+				m.Cex = append(m.Cex, c)
+			} else if c.Reproduced {
+				for i := range m.Cex {
+					if m.Cex[i].What == c.What && !m.Cex[i].Reproduced {
+						m.Cex[i] = c
+					}
+				}
+			}
+		}
+		if p.Error != "" && m.Error == "" {
+			m.Error = p.Error
+		}
+	}
+	m.Functions, m.Models, m.Havoc, m.Bounds = keysSorted(fs), keysSorted(ms), keysSorted(hv), keysSorted(bs)
+	return m
+}
+
+func runProc(h harnessSpec, tier string, seed int64, solver string, shardBits, shard int) HarnessResult {
+	procSem <- struct{}{}
+	defer func() { <-procSem }()
 	tmp, _ := os.CreateTemp("", "gosym-res-*.json")
 	tmp.Close()
 	defer os.Remove(tmp.Name())
@@ -76,7 +180,14 @@ func runSub(h harnessSpec, tier string, seed int64, solver string) HarnessResult
 	if solver != "" {
 		nval = 0
 	}
-	args := []string{"run", h.Pkg, h.Fn, "-loop", strconv.Itoa(loop), "-validate", strconv.Itoa(nval), "-seed", strconv.FormatInt(seed, 10), "-out", tmp.Name()}
+	if shardBits > 0 && nval > 0 { // spread the validation budget over the shards
+		nval = (nval + (1 << shardBits) - 1) >> shardBits
+		if nval < 1 {
+			nval = 1
+		}
+	}
+	args := []string{"run", h.Pkg, h.Fn, "-loop", strconv.Itoa(loop), "-validate", strconv.Itoa(nval), "-seed", strconv.FormatInt(seed, 10), "-out", tmp.Name(),
+		"-shardbits", strconv.Itoa(shardBits), "-shard", strconv.Itoa(shard)}
 	cmd := exec.Command(selfExe(), args...)
 	tl := "20000"
 	if tier == "thorough" {
@@ -146,24 +257,15 @@ func cmdCheck(argv []string) int {
 	}
 	results := make([]HarnessResult, len(hs))
 	cross := make([]*HarnessResult, len(hs))
-	par := 8
-	if p, err := strconv.Atoi(os.Getenv("VERIF_PAR")); err == nil && p > 0 {
-		par = p
-	}
-	sem := make(chan struct{}, par)
 	var wg sync.WaitGroup
 	for i := range hs {
 		wg.Add(1)
 		go func(i int) {
 			defer wg.Done()
-			sem <- struct{}{}
 			results[i] = runSub(hs[i], tier, seed, "")
-			<-sem
 			if tier == "thorough" && hs[i].CrossSolver != "" {
-				sem <- struct{}{}
 				r := runSub(hs[i], tier, seed, hs[i].CrossSolver)
 				cross[i] = &r
-				<-sem
 			}
 		}(i)
 	}
